@@ -18,7 +18,9 @@ RULE = (
     "per case (strategies): one generated card x parameters by name x 40 events; the default eager model is compared with "
     "every data-section strategy {cached_amp(+no_p4/no_angle), cached_shape, cached_angle+base_factor, base_factor, "
     "p4_directly, use_tf_function(+no_id_cached), jit_compile, lazy_call(+lazy_file)}: first call, second call (cached-function "
-    "path) and a call after the couplings were changed (stale-cache detection).  per case (likelihood): toy data/phsp/bg x "
+    "path), a call after the couplings (incl. free Flatte channel couplings) were changed (stale-cache detection), the same couplings stored in "
+    "Cartesian form, and chain subsets that are not a prefix of the chain list; card classes with identical particles, CP-violating couplings "
+    "and interleaved declarations.  per case (likelihood): toy data/phsp/bg x "
     "{cached_int, cached_amp, cfit vs cfit+cached_amp, lazy_call} value and gradient vs the default model at 3 parameter points "
     "and on a second data set built after the first was garbage-collected.  programs: every einsum call DecayChain.get_amp "
     "emits during the run is re-evaluated with tf.einsum (online contract at the call site) + random valid expressions vs "
@@ -44,7 +46,7 @@ REQUIRE = {
 LEVEL_TEXT = ("Pair monitor (default eager model vs every interchangeable evaluation strategy selectable in the data section, value and "
               "gradient for the likelihood models), an online contract wrapped around the library's own einsum at its real call site, and "
               "random valid einsum programs against numpy.einsum.")
-TECHNIQUE = "differential runtime monitor across evaluation strategies + online contract at the einsum call site"
+TECHNIQUE = "differential runtime monitor across evaluation strategies (full model, chain subsets, changed parameters, other coordinate form) + online contract at the einsum call site"
 
 STRATEGIES = {
     "cached_amp": {"preprocessor": "cached_amp", "amp_model": "cached_amp"},
